@@ -357,6 +357,53 @@ def run_script(ctx, ops, tag):
             pass
 
 
+def canon_dump(nodes):
+    """re-canonicalise an HDF5-level dump: the order of the children of an *entity* group (its container groups,
+    role links, datasets) and of the root is not observable through the API and may differ after a refused create
+    that left an empty container group behind (dropped from the dump, but it took its place in the creation
+    order); the order inside container groups — which is the order of the entities — is kept"""
+    if not isinstance(nodes, list):
+        return nodes
+    byn = {n["n"]: n for n in nodes}
+    order = {}
+
+    def visit(k):
+        if k in order or k not in byn:
+            return
+        order[k] = len(order)
+        nd = byn[k]
+        links = nd["links"]
+        if k == 0 or "entity_id" in nd["attrs"]:
+            links = sorted(links, key=lambda l: l[0])
+        for _, t in links:
+            visit(t)
+
+    visit(0)
+    out = []
+    for k in sorted(order, key=lambda x: order[x]):
+        nd = byn[k]
+        links = nd["links"]
+        if k == 0 or "entity_id" in nd["attrs"]:
+            links = sorted(links, key=lambda l: l[0])
+        out.append({"n": order[k], "kind": nd["kind"], "attrs": nd["attrs"],
+                    "links": [[nm, order.get(t, -1)] for nm, t in links]})
+    return out
+
+
+def compare(ops, outs, model):
+    """storegen.compare on outputs whose dumps are re-canonicalised; the error class of a refused append is not
+    this property's subject (only refused / accepted is compared there)"""
+    def prep(o, op):
+        if op[0] == "dump" and isinstance(o, dict) and isinstance(o.get("ok"), list):
+            return {"ok": canon_dump(o["ok"])}
+        if op[0] == "append" and isinstance(o, dict) and "err" in o:
+            return {"err": "refused"}
+        return o
+    outs2 = [prep(o, op) for o, op in zip(outs, ops)]
+    model2 = [prep(o, op) for o, op in zip(model, ops)]
+    return storegen.compare(ops, outs2, model2)
+
+
 def correspondence(ctx):
     n_hist = ctx.budget(14, 120)
     steps = ctx.budget(75, 110)
@@ -371,7 +418,7 @@ def correspondence(ctx):
         ops = case["ops"]
         outs = run_script(ctx, ops, "corpus%d" % ci)
         model = core.run_driver(PROP, [["reset"]] + ops)[1:]
-        for k, op, m, i in storegen.compare(ops, outs, model):
+        for k, op, m, i in compare(ops, outs, model):
             disagreements.append(Disagreement({"corpus": case.get("name", ci), "index": k, "op": op,
                                                "prefix": ops[:k + 1]}, m, i))
         total += len(ops)
@@ -379,7 +426,7 @@ def correspondence(ctx):
         rng = random.Random("%s/%d/%d" % (PROP, ctx.seed, h))
         ops, outs, tl = run_history(ctx, rng, steps, build, "h%d" % h, reopen_prob=0.03)
         model = core.run_driver(PROP, [["reset"]] + ops)[1:]
-        for k, op, m, i in storegen.compare(ops, outs, model):
+        for k, op, m, i in compare(ops, outs, model):
             muts = [o for o in ops[:k + 1] if o[0] not in QUERIES]
             disagreements.append(Disagreement({"history": h, "index": k, "op": op,
                                                "prefix": muts + ([op] if op[0] in ("dump", "list", "role") else [])},
@@ -427,6 +474,9 @@ class Impl4(Impl):
         if op[0] == "copy_da":          # ["copy_da", block path, source array path, new name, keep_id]
             blk = self.nav(op[1])
             blk.create_data_array(op[3], copy_from=self.nav(op[2]), keep_copy_id=bool(op[4]))
+            return None
+        if op[0] == "create_df":        # ["create_df", block path, name]
+            self.nav(op[1]).create_data_frame(op[2], "t", col_dict={"x": int, "y": float})
             return None
         if op[0] == "dim_link":         # ["dim_link", array path, target array path]: range dimension linked to target
             da = self.nav(op[1])
@@ -608,6 +658,7 @@ class Checker:
         self.failures = []
         self.checked = 0
         self.kinds = {}
+        self.incomplete = None      # the op a fixed script could not address (script / navigation problem)
 
     def fail(self, what, d, site):
         self.failures.append(Failure(what + (": " + d["what"] + " at " + d["path"] if d else ""), list(self.log),
@@ -630,18 +681,24 @@ class Checker:
                     return it, i
             return None
         nm = k["s"] if "s" in k else self.impl.nav(k["nameof"]).name
-        for i, it in enumerate(items):
-            if getattr(it, "name", None) == nm:
-                return it, i
-        for i, it in enumerate(items):       # an id given as text
-            if it.id == nm:
-                return it, i
+        by_name = [(it, i) for i, it in enumerate(items) if getattr(it, "name", None) == nm]
+        by_id = [(it, i) for i, it in enumerate(items) if it.id == nm]      # an id given as text
+        if by_name and by_id and by_name[0][1] != by_id[0][1]:
+            return None     # the text names one entry and is the id of another: which one is addressed is C03's
+        #                     subject (open finding name-equals-sibling-id), not fixed by this property
+        if by_name:
+            return by_name[0]
+        if by_id:
+            return by_id[0]
         return None
 
     def run(self, op):
         impl = self.impl
         kind = op[0]
         self.log.append(op)
+        if kind == "reopen":
+            impl.reopen("a")
+            return {"ok": None}
         if kind == "del":
             return self.run_del(op)
         if kind == "set_role" and op[3] is None:
@@ -780,7 +837,13 @@ def _topology():
            ["append", keep, "sources", {"o": B + ["sources", "deep"]}],
            ["append", B + ["groups", "g"], "sources", {"o": B + ["sources", "src"]}],
            ["append", B + ["tags", "tg"], "sources", {"o": B + ["sources", "src", "sources", "deep", "sources", "deeper"]}],
-           ["dim_link", keep, a]]
+           ["dim_link", keep, a],
+           ["create_df", B, "frame"], ["create_df", B, "a"],                  # a frame named like the array
+           ["append", B + ["groups", "g"], "data_frames", {"o": B + ["data_frames", "frame"]}],
+           ["append", B + ["groups", "g2"], "data_frames", {"o": B + ["data_frames", "frame"]}],
+           ["append", B + ["groups", "g"], "data_frames", {"o": B + ["data_frames", "a"]}],
+           ["create_feature", B + ["tags", "tg"], B + ["data_frames", "frame"], "untagged"],
+           ["set_role", B + ["data_frames", "frame"], "metadata", ["metadata", "sec", "sections", "sub"]]]
     return ops
 
 
@@ -803,6 +866,9 @@ def fixed_cases():
     cases.append(("first feature of a tag", topo + [["del", B + ["tags", "tg"], "features", {"p": 0}]]))
     cases.append(("property", topo + [["del", ["metadata", "sec", "sections", "sub"], "properties", {"s": "p"}]]))
     cases.append(("group", topo + [["del", B, "groups", {"s": "g"}]]))
+    cases.append(("data frame linked from two groups and a feature",
+                  topo + [["del", B, "data_frames", {"s": "frame"}],
+                          ["del", B + ["groups", "g"], "data_frames", {"p": 0}]]))
     cases.append(("unlink from group / tag / array sources",
                   topo + [["del", B + ["groups", "g"], "data_arrays", {"s": "a"}],
                           ["del", B + ["tags", "tg"], "references", {"p": 0}],
@@ -848,6 +914,7 @@ def check_script(ctx, ops, tag):
                 continue
             out = ck.run(op)
             if "bad" in out:
+                ck.incomplete = [op, out["bad"]]
                 break
             if ck.failures:
                 break
@@ -881,6 +948,9 @@ def check_random(ctx, rng, steps, build, tag):
             gen.step()
             if len(ck.failures) > 2:
                 break
+            if rng.random() < 0.04:
+                impl.reopen("a")
+                ck.log.append(["reopen"])
     finally:
         impl.close()
         try:
@@ -930,8 +1000,12 @@ def oracle(ctx, broken, hints):
             kinds[k] = kinds.get(k, 0) + v
         failures.extend(ck.failures)
 
+    incomplete = []
     for i, (name, ops) in enumerate(fixed_cases()):
-        take(check_script(ctx, ops, "f%d" % i))
+        ck = check_script(ctx, ops, "f%d" % i)
+        take(ck)
+        if ck.incomplete:
+            incomplete.append([name] + ck.incomplete)
     take(check_script(ctx, known_case()[1], "kf"))
     for i, h in enumerate(hints[:8]):
         if isinstance(h, dict) and h.get("prefix"):
@@ -948,7 +1022,8 @@ def oracle(ctx, broken, hints):
     if fresh:       # minimise the first new failure: it becomes the replay file
         small = shrink(ctx, fresh[0])
         out = [small] + [f for f in out if f is not fresh[0]]
-    return {"evaluations": evals, "failures": out, "scenarios": n, "checked": kinds}
+    return {"evaluations": evals, "failures": out, "scenarios": n, "checked": kinds,
+            "fixed_cases": len(fixed_cases()), "fixed_cases_incomplete": incomplete}
 
 
 def matches_known(entry, failure):
